@@ -31,6 +31,7 @@ def main(argv: list[str]) -> int:
     ap.add_argument("--harness", action="append", default=None, help="run only these harnesses (debugging)")
     ap.add_argument("--jobs", type=int, default=None)
     ap.add_argument("--no-evidence", action="store_true")
+    ap.add_argument("--warm", action="store_true", help="only compile the encoding (fills the Kani target-dir cache)")
     args = ap.parse_args(argv)
     pid = args.property.upper()
     seed = int(os.environ.get("VERIF_SEED", "0") or 0)
@@ -47,6 +48,13 @@ def main(argv: list[str]) -> int:
     log(f"== {pid} tier={args.tier} seed={seed} repo={core.REPO}")
     with Scratch(pid) as sc:
         prep = mod.prepare(sc)                       # builds the encoding from the scratch copy
+        if args.warm:
+            import subprocess
+            p = subprocess.run(["cargo", "kani", "-Z", "stubbing", "--only-codegen", "--target-dir", str(prep["target_dir"])],
+                               cwd=prep["pkg_dir"], env=core.env_offline(), stdout=subprocess.PIPE, stderr=subprocess.STDOUT, text=True)
+            log(p.stdout[-1500:])
+            log(f"== {pid}: warm-up build exit {p.returncode}")
+            return 0 if p.returncode == 0 else EXIT_INCONCLUSIVE
         specs = select(prep["specs"], args.tier, args.harness)
         jobs = args.jobs or prep.get("jobs", {}).get(args.tier, 8)
         log(f"   encoding regenerated from {core.REPO} in {sc.sync_s:.1f}s; rewrites: {json.dumps(prep.get('rewrites', {}))}")
